@@ -23,6 +23,8 @@ RELATED = {
     'C18_e': ['C18'], 'C19_e': ['C19'], 'C20_e': ['C20'],
     'C02_f': ['C02'], 'C03_f': ['C03', 'C19'], 'C04_f': ['C04'], 'C06_f': ['C06'], 'C08_f': ['C08'], 'C10_f': ['C10'], 'C11_f': ['C11', 'C12'], 'C12_f': ['C12'],
     'C14_f': ['C14', 'C15'], 'C15_f': ['C15'], 'C16_f': ['C16', 'C19'], 'C20_f': ['C20'],
+    'C01_g': ['C01', 'C03'], 'C05_g': ['C05'], 'C06_g': ['C06'], 'C07_g': ['C07'], 'C09_g': ['C09'], 'C10_g': ['C10', 'C14'], 'C13_g': ['C13'], 'C17_g': ['C17'],
+    'C18_g': ['C18'], 'C19_g': ['C19'],
     'C01_c': ['C01', 'C12'], 'C16_c': ['C16'], 'C17_c': ['C17'], 'C18_c': ['C18', 'C13'], 'C19_c': ['C19', 'C03'], 'C20_c': ['C20'],
 }
 
